@@ -172,7 +172,9 @@ package metadatapart
 // stores are copied from the store they live in into the target store under a fresh id; the new manifest is handed
 // over only after the references were acquired, with the ETag guard of the object that was read.
 //@ func (*metadataPartStorage).TransitionObjectStorageClass$1
+//@ property C08 C13 C14
 //@ mode effects
+//@ trust nonnil metadatastore.MetadataStore.TransitionObject
 //@ trust nonnil metadatastore.MetadataStore.HeadObject
 //@ trust nonnil metadatastore.MetadataStore.HeadObjectVersion
 //@ loop 0 invariant 0 <= iter__ && iter__ <= len(range__) && len(sharedPartIDs) == specCountInStore(range__, iter__, targetStoreName)
@@ -180,6 +182,10 @@ package metadatapart
 //@     where len($ids) == specCountInStore(object.Parts, len(object.Parts), targetStoreName)
 //@ effect[C08:no-transition-when-the-references-were-refused] every mbs.metadataStore.TryAddPartReferences(_, _, $ids) -> ($ok, $e) if !$ok || $e != nil
 //@     forbids after mbs.metadataStore.TransitionObject(_, _, _, _, _, _, _, _)
+//@ havoc deleteUnreferencedParts
+//@ effect[C08:transition-deletes-only-what-the-registry-released] every mbs.deleteUnreferencedParts(_, _, $ps)
+//@     needs before mbs.metadataStore.TransitionObject(_, _, _, _, _, _, _, _) -> ($res, $e) where $e == nil && $res != nil && same($ps, $res.UnreferencedParts)
+//@ effect[C08:no-part-deleted-behind-the-registrys-back] never partstore.PartStore($s).DeletePart(__)
 //@ effect[C14:relocated-part-copied-from-its-store] every targetStore.PutPart(_, $t, $id, $r)
 //@     needs before partstore.PartStore($ss).GetPart(_, _, $gid) -> ($gr, $ge) needs before partstore.NewRandomPartId() -> ($nid, $ne)
 //@     where $ge == nil && $gid == srcPart.Id && $r == $gr && $ne == nil && $id == *$nid
